@@ -19,6 +19,7 @@ CONSTANTS
     HttpWriteDbs <- MCEmpty
     TestMethods = {}
     TestPatterns = {}
+    TestSubtrees = {}
 INVARIANTS
     DbMapInjectiveStrict
 CHECK_DEADLOCK FALSE
